@@ -176,6 +176,13 @@ def run(ctx):
         ctx.check(bool(hb_nodes) and any(vm.dominates(h, n) for h in hb_nodes), "R18.4", main.qualname, c, loc(main, c),
                   "the remodeler can run before the backup has been restored",
                   desc="handle_backup dominates `%s`" % norm(c)[:50])
+    # the data tree is inspected only after the restore (a file deleted since the backup must be in the list)
+    scans = [(n, c) for (n, c) in vm.calls(lambda c: call_name(c) in ("get_file_list", "parse_tasks", "get_dir_dictionary"))]
+    for n, c in scans:
+        ctx.check(bool(hb_nodes) and any(vm.dominates(h, n) for h in hb_nodes), "R18.4", main.qualname, c, loc(main, c),
+                  "the data tree is scanned before the backup has been restored: a file that was deleted or renamed since the "
+                  "backup is restored afterwards but is missing from the list of files to remodel",
+                  desc="handle_backup dominates `%s`" % norm(c)[:50])
     vh = view(ctx, hb)
     cons = [n for (n, c) in vh.calls(lambda c: call_name(c) == "BackupManager")]
     rest = [n for (n, c) in vh.calls(lambda c: call_name(c) == "restore_backup")]
